@@ -9,6 +9,8 @@ def run(pid, tier):
     cfg = "MC_AppScen_quick.cfg" if tier == "quick" else "MC_AppScen_thorough.cfg"
     scen, obs, traces = appcommon.run_scenarios(ctx, cfg, lambda s: True, {"C18"})
     appcommon.validate(ctx, scen, obs, traces, {"C18"}, appcommon.classify_reject)
+    # every command line the repository's own tests drive, validated step by step against the same specification
+    appcommon.suite_traces(ctx, tier, {"C18"})
     ctx.ev.cov["rule"] = ("every scenario printed by TLC for MC_AppScen (command x scheme selection x configuration state x "
                           "continue-on-error x sequence of file kinds); distinct = distinct scenario tuples; all are non-trivial "
                           "(each reaches the exit action through a different path or table entry)")
